@@ -479,11 +479,24 @@ func Pure(p *core.Prog, r *core.Report) {
 			}
 			if c, ok := i.(*ssa.Call); ok {
 				if h := core.StaticCallee(c); h != nil && p.InSubject(h) && len(c.Call.Args) == 2 {
-					core.EachInstr(h, func(j ssa.Instruction) {
-						if _, ok := core.IsCallTo(j, "strings.EqualFold"); ok {
-							fold = true
+					// the package's folding helper, however it is split into functions
+					seenH := map[*ssa.Function]bool{}
+					var visit func(g *ssa.Function, d int)
+					visit = func(g *ssa.Function, d int) {
+						if g == nil || seenH[g] || d > 4 || !p.InSubject(g) {
+							return
 						}
-					})
+						seenH[g] = true
+						core.EachInstr(g, func(j ssa.Instruction) {
+							if _, ok := core.IsCallTo(j, "strings.EqualFold"); ok {
+								fold = true
+							}
+							if cj, ok := j.(ssa.CallInstruction); ok {
+								visit(core.StaticCallee(cj), d+1)
+							}
+						})
+					}
+					visit(h, 0)
 				}
 			}
 		})
